@@ -170,10 +170,18 @@ def lzfExpand (ops : List LzfOp) : Bytes := lzfExpandFrom [] ops
 /-! `lzfExpand` appends byte by byte (quadratic); the compiled driver runs the
     equal reversed-accumulator version below (`@[csimp]`, proved equal). -/
 
+/-- the byte `dist` back in the reversed output (the oldest byte when `dist`
+    reaches beyond the start, 0 for `dist = 0` or no output — as `lzfCopySpec`) -/
+def lzfBack (dist : Nat) (acc : Bytes) : UInt8 :=
+  if dist = 0 then 0 else
+  match acc.drop (dist - 1) with
+  | b :: _ => b
+  | [] => (acc.getLast?).getD 0
+
 def lzfCopyRev : Nat → Nat → Bytes → Bytes
   | 0, _, acc => acc
   | n+1, dist, acc =>
-    lzfCopyRev n dist ((if dist = 0 then 0 else acc.getD (min dist acc.length - 1) 0) :: acc)
+    lzfCopyRev n dist (lzfBack dist acc :: acc)
 
 def lzfExpandRev (acc : Bytes) : List LzfOp → Bytes
   | [] => acc
@@ -188,22 +196,31 @@ theorem lzfCopyRev_spec (n dist : Nat) (out : Bytes) :
   | zero => rfl
   | succ n ih =>
     simp only [lzfCopyRev, lzfCopySpec]
-    have hb : (if dist = 0 then (0 : UInt8) else out.reverse.getD (min dist out.reverse.length - 1) 0) =
-        out.getD (out.length - dist) 0 := by
+    have hb : lzfBack dist out.reverse = out.getD (out.length - dist) 0 := by
+      unfold lzfBack
       by_cases h0 : dist = 0
       · simp [h0, List.getD]
-      · simp only [h0, if_false, List.length_reverse]
-        cases out with
-        | nil => simp [List.getD]
-        | cons a t =>
-          have hl : (a :: t).length = t.length + 1 := rfl
-          have hidx : min dist (a :: t).length - 1 < (a :: t).reverse.length := by
-            simp only [List.length_reverse, hl]; omega
-          have hidx2 : (a :: t).length - dist < (a :: t).length := by simp only [hl]; omega
-          simp only [List.getD, List.getElem?_eq_getElem hidx, List.getElem?_eq_getElem hidx2, Option.getD_some]
+      · simp only [h0, if_false]
+        by_cases hle : dist ≤ out.length
+        · -- within the output: element dist-1 of the reversed list
+          have hlt : dist - 1 < out.reverse.length := by simp; omega
+          have hd : out.reverse.drop (dist - 1) = out.reverse[dist - 1] :: out.reverse.drop (dist - 1 + 1) :=
+            List.drop_eq_getElem_cons hlt
+          rw [hd]
+          have hidx2 : out.length - dist < out.length := by omega
+          simp only [List.getD, List.getElem?_eq_getElem hidx2, Option.getD_some]
           rw [List.getElem_reverse]
           congr 1
-          simp only [hl]; omega
+          omega
+        · -- beyond the start: the oldest byte
+          have hdrop : out.reverse.drop (dist - 1) = [] := by
+            apply List.drop_eq_nil_of_le; simp; omega
+          rw [hdrop]
+          have h0' : out.length - dist = 0 := by omega
+          rw [h0']
+          cases out with
+          | nil => simp [List.getD]
+          | cons a t => simp [List.getD, List.getLast?_reverse]
     rw [hb]
     have := ih (out ++ [out.getD (out.length - dist) 0])
     simp only [List.reverse_append, List.reverse_cons, List.reverse_nil, List.nil_append,
